@@ -686,3 +686,20 @@ def ob_one_endian(ctx, res):
         en = list(seen)[0]
         res.ok(W, "%d multi-byte emissions in the three writer modules, all %s" % (n, en))
         res.count("emissions", n)
+
+
+def ob_magics(ctx, res):
+    """C09-M1: the four magic numbers are the published ones"""
+    want = {"BIGWIG_MAGIC": F.BIGWIG_MAGIC, "BIGBED_MAGIC": F.BIGBED_MAGIC, "CIR_TREE_MAGIC": F.CIR_TREE_MAGIC, "CHROM_TREE_MAGIC": F.CHROM_TREE_MAGIC}
+    for name, val in want.items():
+        c = ctx.ast.const("bigtools/src/bbi.rs", name)
+        e = strip(c["e"])
+        got = None
+        if e.k == "lit" and e["t"] == "int":
+            got = int(e["v"])
+        if got != val:
+            res.fail("magic/" + name, loc(c), "%s = %s, the published value is 0x%08X" % (name, ("0x%08X" % got) if got is not None else up(e), val))
+        elif c["ty"].replace(" ", "") != "u32":
+            res.fail("magic/%s/type" % name, loc(c), "%s must be a u32" % name)
+        else:
+            res.ok(loc(c), "%s = 0x%08X (published)" % (name, val))
